@@ -645,6 +645,22 @@ def mutate_targeted(rng, doc):
             for s in p["sources"]:
                 emit("pulse.time=source-start", lambda d, s=s: d["pulses"][i].__setitem__("time", span[s][0]))
         emit("pulse.time-zero", lambda d: d["pulses"][i].__setitem__("time", 0))
+    # total ingress through ONE migrations entry: a single symmetric migration over k mutually coexisting demes puts
+    # (k-1) * rate into every one of them; just above, exactly at and just below 1
+    grp = []
+    for nm in names:
+        if all(max(span[nm][1], span[o][1]) < min(span[nm][0], span[o][0]) for o in grp):
+            grp.append(nm)
+    if len(grp) >= 3:
+        k = len(grp)
+        for r in (1.0 / (k - 1) + 1e-6, 0.6 if k == 3 else 0.4, up(1.0 / (k - 1)) if (k - 1) * up(1.0 / (k - 1)) > 1 + 1e-9 else 1.0 / (k - 1), 1.0 / (k - 1), 0.999 / (k - 1)):
+            if r <= 1:
+                emit("migration.single-symmetric-ingress", lambda d, r=r: d.__setitem__("migrations", [dict(demes=list(grp), rate=r)]))
+        emit("migration.single-symmetric-ingress-pair", lambda d: d.__setitem__("migrations", [dict(demes=grp[:2], rate=1.0)]))
+    if len(grp) >= 2:
+        emit("migration.single-asymmetric-full", lambda d: d.__setitem__("migrations", [dict(source=grp[0], dest=grp[1], rate=1.0)]))
+        emit("migration.two-entries-ingress", lambda d: d.__setitem__("migrations", [dict(source=grp[0], dest=grp[1], rate=0.7)] + (
+            [dict(source=grp[2], dest=grp[1], rate=0.7)] if len(grp) >= 3 else [])))
     emit("graph.generation_time", lambda d: d.__setitem__("generation_time", rng.choice([0, -1, INF, 2 if d["time_units"] == "generations" else 0])))
     emit("graph.time_units", lambda d: d.__setitem__("time_units", ""))
     emit("graph.doi", lambda d: d.__setitem__("doi", [""]))
